@@ -377,8 +377,74 @@ func tranOp(r *rand.Rand) {
 	}
 }
 
+// buildThenChange: build an index over rows that are not persisted yet, then delete or
+// update some of them (their entries are in the new index's btree but only in the
+// layers of the older indexes)
+func buildThenChange(r *rand.Rand) {
+	ts := currentTables()
+	if len(ts) == 0 {
+		return
+	}
+	t := ts[r.Intn(len(ts))]
+	th := &core.Thread{}
+	if r.Intn(3) > 0 {
+		db.Persist() // so that only the rows added below are unpersisted
+	}
+	ut := db.NewUpdateTran()
+	if ut == nil {
+		return
+	}
+	var added []string
+	for i := 0; i < 1+r.Intn(3); i++ {
+		rec := randRec(r, t, false)
+		if try(func() { ut.Output(th, t.name, rec) }) == "ok" {
+			added = append(added, string(rec))
+		}
+	}
+	if ut.Complete() != "" {
+		return
+	}
+	tr.Emit(vh.E("Committed"))
+	nameSeq++
+	col := t.cols[r.Intn(len(t.cols))]
+	cmd := "alter " + t.name + " create index(" + col + ")"
+	if r.Intn(3) == 0 {
+		cmd = "ensure " + t.name + " (" + t.key + ", n" + strconv.Itoa(nameSeq) + ") index(n" + strconv.Itoa(nameSeq) + ")"
+	}
+	res := try(func() { query.DoAdmin(db, cmd, nil) })
+	tr.Emit(vh.E("Admin", "cmd", cmd, "res", res))
+	ut = db.NewUpdateTran()
+	if ut == nil {
+		return
+	}
+	all := r.Intn(4) > 0
+	try(func() {
+		it := ut.IndexIter(t.name, 0)
+		for it.Next(ut); !it.Eof(); it.Next(ut) {
+			rec := string(db19.OffToRec(db.Store, it.CurOff()))
+			mine := false
+			for _, a := range added {
+				mine = mine || a == rec
+			}
+			if (mine && all) || (!all && r.Intn(3) == 0) {
+				ut.Delete(th, t.name, it.CurOff())
+			}
+		}
+	})
+	if ut.Complete() == "" {
+		tr.Emit(vh.E("Committed"))
+	}
+	if r.Intn(2) == 0 {
+		db.Persist()
+	}
+}
+
 func history(r *rand.Rand, steps int) {
 	for i := 0; i < steps; i++ {
+		if r.Intn(12) == 0 {
+			buildThenChange(r)
+			continue
+		}
 		switch n := r.Intn(20); {
 		case n < 4:
 			adminOp(r)
